@@ -759,6 +759,23 @@ def h_interp(I, a, k, st, n):
     return lift1(lambda x: mk_fn("interp#" + tag, [x], "real"), a[0])
 
 
+def h_prod(I, a, k, st, n):
+    """np.prod over a 1-D array: kept as an uninterpreted product of the (normalised) element expression."""
+    import hashlib
+    v = a[0]
+    if isinstance(v, LocalArr): v = _arr(v, st)
+    A = as_arr(v)
+    if A is None or is_opaque(A) or A.ndim != 1 or k.get("axis") is not None: return Opaque("np.prod argument")
+    (av, ac), = A.axes
+    b = subst_val(A.body, {av: X.var("_p0")})
+    if is_opaque(b) or isinstance(b, PV) or to_x(b) is None: return Opaque("np.prod of a conditional / unrecognised element")
+    tag = hashlib.md5((to_x(b).keystr() + "|" + ac.keystr()).encode()).hexdigest()[:8]
+    kind = "complex" if not to_x(b).isreal() else "real"
+    KIND["prod#" + tag] = kind
+    return X.var("prod#" + tag)
+
+
+_reg("numpy.prod", h_prod)
 _reg("numpy.interp", h_interp)
 _reg("numpy.flatnonzero", h_flatnonzero)
 _reg("numpy.count_nonzero", h_count_nonzero)
